@@ -495,6 +495,36 @@ def stream_matrix(c):
                 jobs.append((tr.Tool(base.name, base.args, data, base.files, base.outputs, base.kind, base.label), name + "@file"))
     for t in option_cases():
         jobs.append((t, "options"))
+    # every option of the option-taking tools with every hostile value
+    OPTS = {
+        "dedupe": (["-f", "--fields", "-d", "--delim"], []),
+        "shard": (["-f", "-d", "--prefix", "-n", "--number", "-c", "--compress"], ["{W}/o1", "{W}/o2"]),
+        "cache": (["-k", "--key", "-t", "--field_separator"], ["cat"]),
+        "simple_cleaning": (["-f", "-d", "--min-chars", "--character-run", "--max-common-inherited", "--min-punct", "--min-punct-sample-size", "--scripts", "--min-scripts"], []),
+        "process_unicode": (["-l", "--language"], ["--flatten", "--lower"]),
+        "warc_parallel": (["-j", "--jobs", "-i"], ["--", "cat"]),
+        "foldfilter": (["-w", "-d"], ["cat"]),
+        "docenc": (["-d", ""], []),
+        "remove_long_lines": ([""], []),
+    }
+    VALUES = ["-1", "0", "1", "2", "2147483647", "2147483648", "4294967296", "18446744073709551616", "1e99", "0.5", "nan", "", "x", ",", "\t", "\xff",
+              "a" * 300, "1-", "-1-", "1,2", "2-1", "1-2-3", "Latn", "1 2"]
+    data = b"a\tb c\nd,e\tf\n" + tr.LONGLINE + b"YQ==\n" + tr.WARC1
+    n = 0
+    for name, (opts, tail) in sorted(OPTS.items()):
+        for o in opts:
+            for v in VALUES:
+                n += 1
+                if c.tier == "quick" and (n + c.seed) % 6:
+                    continue
+                if name == "shard" and o in ("-n", "--number") and ((v.isdigit() and int(v) > 300) or v == "-1"):
+                    continue          # would create millions of files ("-1" is read as 4294967295 by boost's unsigned parser: noted, not pursued)
+                if name == "warc_parallel" and o in ("-j", "--jobs") and v.isdigit() and int(v) > 64:
+                    continue          # would fork thousands of children
+                args = ([o, v] if o else [v]) + tail
+                if name == "shard" and o in ("--prefix", "-n", "--number"):
+                    args = [o, v] + (["-n", "2"] if o == "--prefix" else ["--prefix", "{W}/p"])
+                jobs.append((tr.Tool(name, args, data, label="%s-opt %s %r" % (name, o, v[:12])), "options"))
     # command lines nobody wrote a case for: every executable with generic hostile argument vectors
     hostile = [["--help"], ["-h"], ["--bogus"], ["-"], ["--"], [""], ["-f"], ["--fields"], ["-\xff"], ["a" * 5000], ["-f", "1", "-f", "2"], ["--", "--", "x"],
                ["-1"], ["99999999999999999999999"], ["-d"], ["-w"], ["-j"], ["-n", "-1"], ["--number", "abc"], ["-c"], ["/nonexistent/file"], ["{W}"]]
